@@ -409,7 +409,7 @@ func (p propC06) rigShards() [][3]int {
 func (p propC06) NumCases(tier string) int {
 	n := len(p.rigShards())
 	if tier == "thorough" {
-		return n + 10000
+		return n + 5000
 	}
 	return n + 150
 }
